@@ -7,11 +7,13 @@ VARIABLES d, k, c, inputOk
 vars == <<d, k, c, inputOk>>
 
 OpNames == <<"alpha", "getBeta", "Gamma_op", "delta2">>
-OpShapes == {[style |-> s, parts |-> p, action |-> a, header |-> h, fault |-> f, nparts |-> n, complexPart |-> cp] :
+\* nfaults: how many wsdl:fault messages the operation declares (a SOAP 1.1 fault response carries at most ONE of them)
+OpShapes == {[style |-> s, parts |-> p, action |-> a, header |-> h, fault |-> f, nparts |-> n, complexPart |-> cp, nfaults |-> nf] :
                s \in {"", "document", "rpc"}, p \in {"element", "type"}, a \in {"", "urn:svc/act"}, h \in BOOLEAN, f \in BOOLEAN,
-               n \in {1, 2}, cp \in BOOLEAN}
+               n \in {1, 2}, cp \in BOOLEAN, nf \in {1, 2}}
 \* parts given by type only make sense for rpc
-Valid(bs, sh) == IF (IF sh.style = "" THEN bs ELSE sh.style) = "document"
+Valid(bs, sh) == (sh.fault \/ sh.nfaults = 1) /\
+                 IF (IF sh.style = "" THEN bs ELSE sh.style) = "document"
                  THEN sh.parts = "element" /\ sh.nparts = 1 /\ ~sh.complexPart      \* one body part (WS-I), by element
                  ELSE sh.parts = "type"
 \* the definition is built operation by operation (so that -simulate can walk large spaces),
